@@ -146,7 +146,6 @@ end
 /-- a scalar Go value bound to a scalar column on which marshal.go is known to deviate from the specification -/
 def excludedScalar (t : CqlTy) (g : GoVal) : Bool :=
   match g with
-  | .unset => true                                   -- not a value (handled by the frame writer)
   | .int k named v =>
     (match intColOf t with
      | some col => !k.signed && decide (v ≥ (2:Int)^(8*col.bytes-1))          -- D9: unsigned wraps into the sign bit
@@ -161,7 +160,7 @@ def excludedScalar (t : CqlTy) (g : GoVal) : Bool :=
       | _ => false)
   | .time sec nsec =>
     timeIsZero sec nsec                                                        -- zero time ↦ empty value (gocql convention)
-    || !(ValueSpec.fitsS 8 (sec * 1000))                                       -- int64 overflow of Unix()*1e3
+    || !(ValueSpec.fitsS 8 (sec * 1000)) || !(ValueSpec.fitsS 8 (exactMillis sec nsec))   -- int64 overflow of Unix()*1e3 + ms
     || (match t with
         | .date => decide (exactMillis sec nsec < 0 ∧ exactMillis sec nsec % 86400000 ≠ 0)
                    || !(ValueSpec.fitsU 4 (sec / 86400 + 2147483648))
@@ -246,6 +245,82 @@ def excludedNamed (p : Nat) (names : List String) (ts : List CqlTy) : List Strin
   | _, _ => false
 end
 
+/-! ## documented (column type, Go type) pairs — type level only (doc table marshal.go:72-112) -/
+
+def documentedScalar (t : CqlTy) (g : GoVal) : Bool :=
+  match g with
+  | .nil => true
+  | .int k named _ =>
+    t.isIntCol || (match t with
+      | .time | .timestamp | .duration => k == .int64
+      | .date => k == .int64 && !named
+      | _ => false)
+  | .dur _ => t.isIntCol || (match t with | .time | .duration => true | _ => false)
+  | .str false _ => t.isIntCol || t.isText || (match t with
+      | .uuid | .timeuuid | .date | .duration | .inet => true | _ => false)
+  | .str true _ => t.isText
+  | .bytes named _ _ => t.isText || (match t with | .uuid | .timeuuid => !named | _ => false)
+  | .bool _ _ => (match t with | .boolean => true | _ => false)
+  | .f32 _ _ => (match t with | .float => true | _ => false)
+  | .f64 _ _ => (match t with | .double => true | _ => false)
+  | .big _ => (match t with | .bigint | .counter | .varint => true | _ => false)
+  | .dec _ _ => (match t with | .decimal => true | _ => false)
+  | .time _ _ => (match t with | .timestamp | .date => true | _ => false)
+  | .cqldur _ _ _ => (match t with | .duration => true | _ => false)
+  | .uuid _ | .arr16 _ => (match t with | .uuid | .timeuuid => true | _ => false)
+  | .ip _ => (match t with | .inet => true | _ => false)
+  | _ => false
+
+mutual
+def documented (t : CqlTy) : GoVal → Bool
+  | .nilptr => true
+  | .ptr v => documented t v
+  | g => match t with
+    | .list et | .set et => (match g with
+        | .nil => true
+        | .slice _ vs => documentedAll et vs
+        | .array vs => documentedAll et vs
+        | .ifaces vs => documentedAll et vs
+        | .mapset ks => documentedAll et ks
+        | _ => false)
+    | .map kt vt => (match g with
+        | .nil => true
+        | .map _ kvs => documentedPairs kt vt kvs
+        | _ => false)
+    | .tuple ts => (match g with
+        | .ifaces vs => vs.length == ts.length && documentedFields ts vs
+        | .struct vs => vs.length == ts.length && documentedFields ts vs
+        | .slice _ vs => vs.length == ts.length && documentedFields ts vs
+        | .array vs => vs.length == ts.length && documentedFields ts vs
+        | _ => false)
+    | .udt names ts => (match g with
+        | .udtmap _ fnames vs => documentedNamed names ts fnames vs
+        | .udtstruct fnames vs => documentedNamed names ts fnames vs
+        | _ => false)
+    | _ => documentedScalar t g
+def documentedAll (et : CqlTy) : List GoVal → Bool
+  | [] => true
+  | v :: vs => documented et v && documentedAll et vs
+def documentedPairs (kt vt : CqlTy) : List (GoVal × GoVal) → Bool
+  | [] => true
+  | (k, v) :: r => documented kt k && documented vt v && documentedPairs kt vt r
+def documentedFields : List CqlTy → List GoVal → Bool
+  | t :: ts, v :: vs => documented t v && documentedFields ts vs
+  | _, _ => true
+def documentedNamed (names : List String) (ts : List CqlTy) : List String → List GoVal → Bool
+  | fname :: fnames, v :: vs =>
+    (match lookupIdx fname names 0 with
+     | some i => (match ts[i]? with
+         | some t => documented t v
+         | none => true)
+     | none => true) && documentedNamed names ts fnames vs
+  | _, _ => true
+end
+
+/-- classification used by the harness: which inputs go into the spec-backed comparison -/
+def classify (p : Nat) (t : CqlTy) (g : GoVal) : String :=
+  if !documented t g then "undocumented" else if excluded p t g then "excluded" else "clean"
+
 /-! ## Go value denoting a column value (decode direction) -/
 
 def representScalar (t : CqlTy) (ty : GoTy) (v : CqlVal) : URes :=
@@ -276,7 +351,7 @@ def representScalar (t : CqlTy) (ty : GoTy) (v : CqlVal) : URes :=
       | .uuid, .arr16 | .timeuuid, .arr16 => .ok (.arr16 b)
       | .uuid, .bytes false | .timeuuid, .bytes false => .ok (.bytes false false b)
       | .uuid, .str false | .timeuuid, .str false => .ok (.str false (uuidString b))
-      | .inet, .ip => .ok (.ip b)
+      | .inet, .ip => .ok (.ip ((ipTo4 b).getD b))
       | _, _ => .unmodelled)
   | .bool b => (match t, ty with | .boolean, .bool named => .ok (.bool named b) | _, _ => .unmodelled)
   | .f32 x => (match t, ty with | .float, .f32 named => .ok (.f32 named x) | _, _ => .unmodelled)
@@ -284,5 +359,12 @@ def representScalar (t : CqlTy) (ty : GoTy) (v : CqlVal) : URes :=
   | .decimal u s => (match t, ty with | .decimal, .dec => .ok (.dec u s) | _, _ => .unmodelled)
   | .duration m d n => (match t, ty with | .duration, .cqldur => .ok (.cqldur m d n) | _, _ => .unmodelled)
   | _ => .unmodelled
+
+/-- decode direction for a (possibly nullable, `**T`) target and non-null data -/
+def represent (t : CqlTy) (ty : GoTy) (v : CqlVal) : URes :=
+  match stripPtr ty with
+  | (k, base) => (match representScalar t base v with
+      | .ok g => .ok (wrapPtr k g)
+      | other => other)
 
 end Marshal
